@@ -282,3 +282,224 @@ class compute_sliced_chunks:
         for n, c in ch:
             for s in small_slices(tier, vals, steps):
                 yield {"chunks": c, "slc": s, "dim_size": n}
+
+
+# ---------------------------------------------------------------------------
+# _slice_1d: the per-block slice plan
+# ---------------------------------------------------------------------------
+@contract(f"{UTILS}::_slice_1d", spec="int", props=["C12", "C13", "C04"])
+class slice_1d__int:
+    """an integer index lands in exactly the block that contains it, at its
+    offset inside that block."""
+    params = {"dim_shape": "int", "lengths": "seq", "index": "int"}
+    ghosts = {"j": "int"}
+    result = "map:int"
+
+    def requires(dim_shape, lengths, index):
+        return S.And(S.slen(lengths) >= 1, S.chunking(lengths, dim_shape), 0 <= index, index < dim_shape)
+
+    def facts(dim_shape, lengths, index):
+        return [("mono_prefix", lengths), ("cum_sorted", lengths)]
+
+    def ensures(result, dim_shape, lengths, index, j):
+        inblock = S.And(0 <= j, j < S.slen(lengths),
+                        S.lazy_implies(S.And(0 <= j, j < S.slen(lengths)),
+                                       lambda: S.And(S.prefix(lengths, j) <= index, index < S.prefix(lengths, j + 1))))
+        return {
+            "key-is-containing-block": S.Implies(S.mhas(result, j), inblock),
+            "offset": S.lazy_implies(S.mhas(result, j), lambda: S.val(S.mget(result, j)) == index - S.prefix(lengths, j)),
+            "containing-block-is-key": S.Implies(inblock, S.mhas(result, j)),
+        }
+
+    def ghost_domain(dim_shape, lengths, index):
+        return {"j": range(-1, len(lengths) + 1)}
+
+    def domain(tier, rng):
+        for n, c in chunkings(6 if tier == "quick" else 9):
+            for index in range(0, n):
+                yield {"dim_shape": n, "lengths": c, "index": index}
+
+
+def norm_bounds(s, n):
+    """bounds of a normalised slice (normalize_slice's 'canonical' clause and
+    _slice_1d's precondition): no negative / out-of-range entries left."""
+    a, b, c = S.parts(s)
+    pos = S.And(
+        S.Or(S.is_none(a), S.And(0 <= S.val(a), S.val(a) <= n)),
+        S.Or(S.is_none(b), S.And(0 <= S.val(b), S.val(b) <= n)),
+        S.Or(S.is_none(a), S.is_none(b), S.val(a) <= S.val(b)),
+    )
+    neg = S.And(
+        S.Or(S.is_none(a), S.And(0 <= S.val(a), S.val(a) <= n - 1)),
+        S.Or(S.is_none(b), S.And(0 <= S.val(b), S.val(b) <= n - 1)),
+    )
+    return S.And(S.step_ok(s), S.If(S.Or(S.is_none(c), S.val(c, 1) > 0), pos, neg))
+
+
+def selected(index, n, p):
+    """position p of an axis of length n is selected by `index`."""
+    lo, hi, st = S.idx3(index, n)
+    return S.If(st > 0,
+                S.And(lo <= p, p < hi, S.mod(p - lo, st) == 0),
+                S.And(hi < p, p <= lo, S.mod(lo - p, -st) == 0))
+
+
+def same_direction(index, piece):
+    c = S.parts(index)[2]
+    pc = S.parts(piece)[2]
+    return S.Iff(S.Or(S.is_none(c), S.val(c, 1) > 0), S.Or(S.is_none(pc), S.val(pc, 1) > 0))
+
+
+@contract(f"{UTILS}::_slice_1d", spec="slice", props=["C12", "C13", "C03", "C04"])
+class slice_1d__slice:
+    """the per-block plan partitions exactly the selected positions: position
+    q of block j is selected by the index iff block j is a key and its piece
+    selects q; every key is a block; pieces run in the index's direction."""
+    params = {"dim_shape": "int", "lengths": "seq", "index": "slice"}
+    ghosts = {"j": "int", "q": "int"}
+    result = "map:slice"
+    locals = {"d": "map:slice"}
+
+    def requires(dim_shape, lengths, index):
+        return S.And(S.slen(lengths) >= 1, S.chunking(lengths, dim_shape), norm_bounds(index, dim_shape))
+
+    def facts(dim_shape, lengths, index):
+        return [("mono_prefix", lengths), ("cum_sorted", lengths)]
+
+    def ensures(result, dim_shape, lengths, index, j, q):
+        inr = S.And(0 <= j, j < S.slen(lengths))
+        return {
+            "keys-are-blocks": S.Implies(S.mhas(result, j), inr),
+            "exact": S.lazy_implies(
+                inr, lambda: S.lazy_implies(
+                    S.And(0 <= q, q < S.at(lengths, j)),
+                    lambda: S.Iff(selected(index, dim_shape, S.prefix(lengths, j) + q),
+                                  S.And(S.mhas(result, j),
+                                        S.lazy_implies(S.mhas(result, j),
+                                                       lambda: selected(S.mget(result, j), S.at(lengths, j), q)))))),
+            "direction": S.lazy_implies(
+                S.And(inr, S.mhas(result, j)),
+                lambda: S.And(S.step_ok(S.mget(result, j)),
+                              S.lazy_implies(S.step_ok(S.mget(result, j)),
+                                             lambda: S.Implies(S.nsel(S.mget(result, j), S.at(lengths, j)) >= 1,
+                                                               same_direction(index, S.mget(result, j)))))),
+        }
+
+    def ghost_domain(dim_shape, lengths, index):
+        return {"j": range(-1, len(lengths) + 1), "q": range(0, max(lengths) if lengths else 1)}
+
+    def domain(tier, rng):
+        ch = chunkings(6 if tier == "quick" else 9, maxparts=4 if tier == "quick" else None)
+        for n, c in ch:
+            vals = [None] + list(range(0, n + 1))
+            for s in small_slices(tier, vals, [None, -3, -2, -1, 1, 2, 3]):
+                yield {"dim_shape": n, "lengths": c, "index": s}
+
+
+# ---- loop invariants of _slice_1d[slice] (symbolic only) ---------------------
+def _exact(v, d):
+    """the partition fact for the ghost block j / offset q against map d."""
+    L, j, q = v.lengths, v.j, v.q
+    return S.Implies(
+        S.And(0 <= q, q < S.at(L, j)),
+        S.Iff(selected(v.index, v.dim_shape, S.prefix(L, j) + q),
+              S.And(S.mhas(d, j), selected(S.mget(d, j), S.at(L, j), q))))
+
+
+def _piece_dir(v, d):
+    j = v.j
+    p = S.mget(d, j)
+    return S.Implies(S.mhas(d, j), S.And(S.step_ok(p), S.Implies(S.nsel(p, S.at(v.lengths, j)) >= 1,
+                                                                  same_direction(v.index, p))))
+
+
+def _keys_between(d, lo, hi):
+    import z3
+    k = z3.Int("k!kb")
+    return z3.ForAll([k], z3.Implies(z3.Select(d.has, k), z3.And(lo <= k, k < hi)), patterns=[z3.Select(d.has, k)])
+
+
+def _inv_pos(v, v0):
+    L = v.lengths
+    i = v0.istart + v.it
+    Pi, Pis = S.prefix(L, i), S.prefix(L, v0.istart)
+    live = v.stop > 0
+    return {
+        "range": S.And(0 <= v0.istart, i <= S.slen(L)),
+        "stop": v.stop + (Pi - Pis) == v0.stop,
+        "start": S.Implies(live, v.start >= 0),
+        "lattice": S.Implies(live, S.And(v.M >= 0, v.start + (Pi - Pis) == v0.start + v.M * v.step,
+                                         S.Or(v.start < v.step, v.M == 0))),
+        "exact": S.Implies(S.And(v0.istart <= v.j, v.j < i), _exact(v, v.d)),
+        "dir": S.Implies(S.And(v0.istart <= v.j, v.j < i), _piece_dir(v, v.d)),
+        "keys": _keys_between(v.d, v0.istart, i),
+    }
+
+
+def _upd_pos(h, e):
+    take = S.And(h.start < e.length, h.stop > 0)
+    return {"M": S.If(take, h.M - S.div(h.start - e.length, h.step), h.M)}
+
+
+def _hints_pos(h, e):
+    y = h.q - h.start
+    return {
+        "mod-shift": ("lemma", "mod_shift", y, h.M, h.step),
+        "mod-small": ("lemma", "mod_small", y, h.step),
+    }
+
+
+slice_1d__slice.merge = False
+slice_1d__slice.loops = {
+    "for#1": Loop(invariant=_inv_pos, ghosts={"M": "int"}, ghost_init=lambda v: {"M": 0}, ghost_update=_upd_pos,
+                  hints=_hints_pos),
+    "for#2": None,
+    "for#3": None,
+}
+
+
+def _inv_neg(v, v0):
+    L = v.lengths
+    i = v0.istart - v.it
+    lo, hi, st = S.idx3(v.index, v.dim_shape)
+    Pnext = S.prefix(L, i + 1)
+    return {
+        "range": S.And(-1 <= i, i <= v0.istart, v0.istart <= S.slen(L) - 1, v0.istop >= -1),
+        "lattice": S.And(v.M >= 0, v.rstart == lo + v.M * st),
+        "largest": S.Or(v.M == 0, v.rstart - st >= Pnext),
+        "below": S.Implies(v.rstart > hi, v.rstart < Pnext),
+        "exact": S.Implies(S.And(i < v.j, v.j <= v0.istart), _exact(v, v.d)),
+        "dir": S.Implies(S.And(i < v.j, v.j <= v0.istart), _piece_dir(v, v.d)),
+        "keys": _keys_between(v.d, i + 1, v0.istart + 1),
+    }
+
+
+def _upd_neg(h, e):
+    take = S.And(e.chunk_start <= h.rstart, h.rstart < e.chunk_stop, h.rstart > h.stop)
+    return {"M": S.If(take, h.M - S.div(h.rstart - (e.chunk_start - 1), h.step), h.M)}
+
+
+def _hints_neg(h, e):
+    y = (h.rstart - S.prefix(h.lengths, h.i)) - h.q
+    return {
+        "mod-shift": ("lemma", "mod_shift", y, h.M, -h.step),
+        "mod-small": ("lemma", "mod_small", y, -h.step),
+    }
+
+
+def _inv_final(v, v0):
+    import z3
+    k = z3.Int("k!fin")
+    L = v.lengths
+    inr = S.And(0 <= v.j, v.j < S.slen(L))
+    return {
+        "same-keys": z3.ForAll([k], z3.Select(v.d.has, k) == z3.Select(v0.d.has, k), patterns=[z3.Select(v.d.has, k)]),
+        "exact": S.Implies(inr, _exact(v, v.d)),
+        "dir": S.Implies(inr, _piece_dir(v, v.d)),
+    }
+
+
+slice_1d__slice.loops["for#2"] = Loop(invariant=_inv_neg, ghosts={"M": "int"}, ghost_init=lambda v: {"M": 0},
+                                      ghost_update=_upd_neg, hints=_hints_neg)
+slice_1d__slice.loops["for#3"] = Loop(invariant=_inv_final)
+slice_1d__slice._contract.loops = slice_1d__slice.loops
